@@ -4,8 +4,11 @@
    notes of the plain segment that contains them.  Accepted lines are echoed, the first line
    the model does not accept is replaced by "REJECT ..."; then the model's own summary (F line)
    is printed, which must equal the implementation's.
+   The position of the signal among the context events of an epoll_wait batch (the choice
+   parameter of the model's poll step) is read off the trace: the number of releases (cass) the
+   loop thread performs before its next clear-up of the signal (eread) in the same pass.
    Case lines:  loop <be> <loopthr> <hints> / thr <script> ... / [cb <handle|bare> <flags|-> [nctx]]
-                / [variant <fix_exit> <fix_add>]
+                / [cbw <s0> <s1> ...] / [cbt <s0> ...] / [tmo <0|1>] / [del <0|1>] / [variant <fix_exit> <fix_add>]
                 / TRACE / <implementation output> *)
 let op_of_string = function
   | "poll" -> OLoad | "eread" -> OXchg | "ewrite" -> OFadd | "mlock" -> OMlock | "munlock" -> OMunlock
@@ -32,68 +35,104 @@ let note_of (text : string) : int * int =
   | ["returned"] -> (11, 0)
   | ["clear"; id] -> (12, int_of_string id)
   | ["exitcb"] -> (13, 0)
+  | ["op"; "s"; id] -> (14, int_of_string id)
+  | ["op"; "d"; id] -> (15, int_of_string id)
+  | ["msg"; id] -> (16, int_of_string id)
+  | ["close"; id] -> (17, int_of_string id)
+  | ["op"; "c"; id] -> (18, int_of_string id)
+  | ["timer"] -> (19, 0)
   | _ -> (99, 0)
 
+(* functional acceptor: state, pending notes per thread, remaining lines, accepted lines (reversed).
+   At a poll event of the epoll back-end that reports the signal together with k >= 1 contexts the
+   model's choice parameter (position of the signal in the batch) is not visible in that line: the
+   candidates 0..k are tried in turn (the one suggested by the releases / message callbacks that
+   precede the next clear-up first) and the first one under which the rest of the trace is accepted
+   is taken. *)
 let accept (step : sys -> nat -> nat -> (sys * label) option) (st0 : sys) (lines : string list) : sys * bool * bool =
-  let st = ref st0 and ok = ref true and stuck = ref false in
-  let pend : (int, (int * int) list) Hashtbl.t = Hashtbl.create 8 in
-  let reject l why = Printf.printf "REJECT %s :: %s\n" l why; ok := false in
-  List.iter (fun l ->
-    if !ok then begin
-      match words l with
-      | "E" :: t :: op :: cell :: _mo :: a :: b :: c :: _ ->
-        let ti = int_of_string t and ai = int_of_string a and bi = int_of_string b and ci = int_of_string c in
-        (match step !st (nat_of_int ti) O with
-         | Some (s', LEv e) ->
-           if e.e_op = op_of_string op && int_of_nat e.e_cell = cell_id cell
-              && int_of_z e.e_a = ai && int_of_z e.e_b = bi && int_of_z e.e_c = ci
-           then (st := s'; print_endline l)
-           else reject l (Printf.sprintf "model performs %s cell=%d %s %s %s" (string_of_op e.e_op)
-                            (int_of_nat e.e_cell) (string_of_z e.e_a) (string_of_z e.e_b) (string_of_z e.e_c))
-         | Some (_, LPlain _) -> reject l "model is in a plain segment"
-         | Some (_, LExit) -> reject l "model thread is at exit"
-         | None -> reject l "model thread is not enabled")
-      | "R" :: t :: _ ->
-        let ti = int_of_string t in
-        let text = String.concat " " (List.tl (List.tl (words l))) in
-        let cur = try Hashtbl.find pend ti with Not_found -> [] in
-        Hashtbl.replace pend ti (cur @ [note_of text]); print_endline l
-      | ["P"; t] ->
-        let ti = int_of_string t in
-        let notes = try Hashtbl.find pend ti with Not_found -> [] in
-        Hashtbl.replace pend ti [];
-        (match step !st (nat_of_int ti) O with
-         | Some (s', LPlain ns) ->
-           let ns' = List.map (fun (k, v) -> (int_of_nat k, int_of_z v)) ns in
-           if ns' = notes then (st := s'; print_endline l)
-           else reject l (Printf.sprintf "model notes [%s] vs logged [%s]"
-                            (String.concat ";" (List.map (fun (k, v) -> Printf.sprintf "%d:%d" k v) ns'))
-                            (String.concat ";" (List.map (fun (k, v) -> Printf.sprintf "%d:%d" k v) notes)))
-         | Some (_, LEv e) -> reject l ("model is at operation " ^ string_of_op e.e_op)
-         | Some (_, LExit) -> reject l "model thread is at exit"
-         | None -> reject l "model thread is not enabled")
-      | ["X"; t] ->
-        (match step !st (nat_of_int (int_of_string t)) O with
-         | Some (s', LExit) -> st := s'; print_endline l
-         | _ -> reject l "model thread is not at exit")
-      | "DEADLOCK" :: _ ->
-        (* the model must agree that nothing can move: every thread is disabled or waits for I/O
-           with the signal not ready *)
-        let thread_stuck t =
-          let tn = nat_of_int t in
-          let polls_nothing s = (match step s tn O with
-            | Some (_, LEv e) -> e.e_op = OLoad && int_of_z e.e_a = 0 | _ -> false) in
-          (match step !st tn O with
-           | None -> true
-           | Some (s', LPlain []) when thr !st tn = SRepoll -> polls_nothing s'
-           | Some _ -> polls_nothing !st) in
-        let rec all t = t >= 16 || (thread_stuck t && all (t + 1)) in
-        if all 0 then (stuck := true; print_endline l) else reject l "model has a thread that can move"
-      | "LIVELOCK" :: _ -> stuck := true; print_endline l
-      | "F" :: _ -> ()
-      | _ -> ()
-    end) lines;
-  (!st, !ok, !stuck)
+  let rec sig_pos t acc = function
+    | [] -> 0
+    | l :: r ->
+      (match words l with
+       | "E" :: t' :: "cass" :: _ when t' = t -> sig_pos t (acc + 1) r
+       | "R" :: t' :: "msg" :: _ when t' = t -> sig_pos t (acc + 1) r
+       | "E" :: t' :: "eread" :: _ when t' = t -> acc
+       | "E" :: t' :: "poll" :: _ when t' = t -> 0
+       | _ -> sig_pos t acc r) in
+  let get pend ti = try List.assoc ti pend with Not_found -> [] in
+  let set pend ti v = (ti, v) :: List.remove_assoc ti pend in
+  (* returns (state, ok, stuck, accepted lines reversed) *)
+  let rec go (st : sys) pend (lines : string list) (acc : string list) : sys * bool * bool * string list =
+    match lines with
+    | [] -> (st, true, false, acc)
+    | l :: rest ->
+      let reject why = (st, false, false, (Printf.sprintf "REJECT %s :: %s" l why) :: acc) in
+      (match words l with
+       | "E" :: t :: op :: cell :: _mo :: a :: b :: c :: _ ->
+         let ti = int_of_string t and ai = int_of_string a and bi = int_of_string b and ci = int_of_string c in
+         let cands =
+           if op = "poll" && ai = 1 && bi >= 2 then
+             let h = min (sig_pos t 0 rest) (bi - 1) in
+             h :: List.filter (fun x -> x <> h) (List.init bi (fun i -> i))
+           else [0] in
+         let attempt ch =
+           (match step st (nat_of_int ti) (nat_of_int ch) with
+            | Some (s', LEv e) ->
+              if e.e_op = op_of_string op && int_of_nat e.e_cell = cell_id cell
+                 && int_of_z e.e_a = ai && int_of_z e.e_b = bi && int_of_z e.e_c = ci
+              then go s' pend rest (l :: acc)
+              else reject (Printf.sprintf "model performs %s cell=%d %s %s %s" (string_of_op e.e_op)
+                             (int_of_nat e.e_cell) (string_of_z e.e_a) (string_of_z e.e_b) (string_of_z e.e_c))
+            | Some (_, LPlain _) -> reject "model is in a plain segment"
+            | Some (_, LExit) -> reject "model thread is at exit"
+            | None -> reject "model thread is not enabled") in
+         let rec first = function
+           | [] -> assert false
+           | [ch] -> attempt ch
+           | ch :: more -> let (_, ok, _, _) as r = attempt ch in if ok then r else
+               (match first more with (_, true, _, _) as r2 -> r2 | _ -> r) in
+         first cands
+       | "R" :: t :: _ ->
+         let ti = int_of_string t in
+         let text = String.concat " " (List.tl (List.tl (words l))) in
+         go st (set pend ti (get pend ti @ [note_of text])) rest (l :: acc)
+       | ["P"; t] ->
+         let ti = int_of_string t in
+         let notes = get pend ti in
+         let pend' = set pend ti [] in
+         (match step st (nat_of_int ti) O with
+          | Some (s', LPlain ns) ->
+            let ns' = List.map (fun (k, v) -> (int_of_nat k, int_of_z v)) ns in
+            if ns' = notes then go s' pend' rest (l :: acc)
+            else reject (Printf.sprintf "model notes [%s] vs logged [%s]"
+                           (String.concat ";" (List.map (fun (k, v) -> Printf.sprintf "%d:%d" k v) ns'))
+                           (String.concat ";" (List.map (fun (k, v) -> Printf.sprintf "%d:%d" k v) notes)))
+          | Some (_, LEv e) -> reject ("model is at operation " ^ string_of_op e.e_op)
+          | Some (_, LExit) -> reject "model thread is at exit"
+          | None -> reject "model thread is not enabled")
+       | ["X"; t] ->
+         (match step st (nat_of_int (int_of_string t)) O with
+          | Some (s', LExit) -> go s' pend rest (l :: acc)
+          | _ -> reject "model thread is not at exit")
+       | "DEADLOCK" :: _ ->
+         (* the model must agree that nothing can move: every thread is disabled or waits for I/O
+            with nothing ready *)
+         let thread_stuck t =
+           let tn = nat_of_int t in
+           let polls_nothing s = (match step s tn O with
+             | Some (_, LEv e) -> e.e_op = OLoad && int_of_z e.e_a = 0 && int_of_z e.e_b = 0 | _ -> false) in
+           (match step st tn O with
+            | None -> true
+            | Some (s', LPlain []) when thr st tn = SRepoll -> polls_nothing s'
+            | Some _ -> polls_nothing st) in
+         let rec all t = t >= 16 || (thread_stuck t && all (t + 1)) in
+         if all 0 then (let (s, ok, _, acc') = go st pend rest (l :: acc) in (s, ok, true, acc'))
+         else reject "model has a thread that can move"
+       | "LIVELOCK" :: _ -> let (s, ok, _, acc') = go st pend rest (l :: acc) in (s, ok, true, acc')
+       | _ -> go st pend rest acc) in
+  let (st, ok, stuck, acc) = go st0 [] lines [] in
+  List.iter print_endline (List.rev acc);
+  (st, ok, stuck)
 
 let handle (lines : string list) : unit =
   let rec split acc = function
@@ -102,17 +141,22 @@ let handle (lines : string list) : unit =
     | [] -> (List.rev acc, []) in
   let (cfg, trace) = split [] lines in
   let be = ref BEpoll and loopthr = ref 0 and hints = ref 8 and scripts = ref [] and fx = ref true and fa = ref true
-  and bare = ref false and flags = ref "warcmt" and nctx = ref 0 in
+  and bare = ref false and flags = ref "warcmt" and nctx = ref 0 and cbw = ref [] and cbt = ref []
+  and tmo = ref false and del = ref false in
+  let ops_of s = if s = "-" then [] else
+    List.filter_map (fun ch -> match ch with 'w' -> Some OpW | 'h' -> Some OpH | 'x' -> Some OpX | 's' -> Some OpS
+                                           | 'd' -> Some OpD | 'c' -> Some OpC | _ -> None)
+      (List.init (String.length s) (String.get s)) in
   List.iter (fun l -> match words l with
     | ["loop"; b; lt; h] ->
       be := (match b with "select" -> BSelect | "poll" -> BPoll | _ -> BEpoll);
       loopthr := int_of_string lt; hints := int_of_string h
-    | ["thr"; s] ->
-      let ops = if s = "-" then [] else
-        List.filter_map (fun ch -> match ch with 'w' -> Some OpW | 'h' -> Some OpH | 'x' -> Some OpX | _ -> None)
-          (List.init (String.length s) (String.get s)) in
-      scripts := !scripts @ [ops]
+    | ["thr"; s] -> scripts := !scripts @ [ops_of s]
     | ["variant"; a; b] -> fx := (a <> "0"); fa := (b <> "0")
+    | "cbw" :: ss -> cbw := List.map ops_of ss
+    | "cbt" :: ss -> cbt := List.map ops_of ss
+    | ["tmo"; v] -> tmo := (v <> "0")
+    | ["del"; v] -> del := (v <> "0")
     | "cb" :: mode :: fl :: rest ->
       bare := (mode = "bare"); flags := (if fl = "-" then "" else fl);
       nctx := (match rest with n :: _ when !bare -> max 0 (min 8 (int_of_string n)) | _ -> 0)
@@ -129,7 +173,9 @@ let handle (lines : string list) : unit =
               c_cb_release = (if !bare then false else has 'r');
               c_cb_read = (if !bare then has 'r' else has 'm');
               c_cb_close = has 'c'; c_cb_clear = (if !bare then has 'l' else true);
-              c_cb_exit = (if !bare then has 'x' else true); c_cb_timer = has 't' } in
+              c_cb_exit = (if !bare then has 'x' else true); c_cb_timer = has 't';
+              c_cbw = (if !bare then [] else !cbw); c_cbt = (if !bare then [] else !cbt);
+              c_tmo = !tmo; c_del = !del } in
     let (st, ok, stuck) = accept (step c) init trace in
     if ok then begin
       let late = if stuck then 0 else List.length (queue st) in
